@@ -13,3 +13,8 @@ impl vstd::std_specs::convert::FromSpecImpl<ExecutionResult> for ExecutionSpawnR
     open spec fn from_spec(r: ExecutionResult) -> Self { ExecutionSpawnResult::Completed(r) }
 }
 impl From<ExecutionResult> for ExecutionSpawnResult { fn from(result: ExecutionResult) -> Self { Self::Completed(result) } }
+impl Shell {
+    // `$_` update: does not touch the status fields (stub read off its body)
+    #[verifier::external_body]
+    pub fn update_last_arg_variable(&mut self, last_arg: Option<String>) ensures *final(self) == *old(self) { unimplemented!() }
+}
